@@ -4,6 +4,8 @@
 import Verif.Model.C10
 import Verif.NumReal
 import Mathlib.Tactic.FieldSimp
+import Mathlib.Analysis.SpecialFunctions.Complex.Log
+import Mathlib.Algebra.Field.GeomSum
 import Mathlib.Tactic.Positivity
 import Mathlib.Order.Defs.LinearOrder
 import Mathlib.Tactic.Ring
@@ -693,6 +695,204 @@ theorem meanRows_map_mul (s : ℝ) (rows : List (List ℝ)) (w : Nat) :
     rw [List.map_map]; rfl
   show rsum (rows.map ((fun r : List ℝ => (List.map (s * ·) r).getD k 0.0))) / _ = _
   rw [this, h2, rsum_map_mul]; ring
+
+end real
+/-! ## roots of unity: the DFT of a constant vanishes off the zero-frequency bin -/
+
+open Complex in
+theorem sum_exp_eq_zero (d N : ℕ) (hd : 0 < d) (hdN : d < N) :
+    ∑ i ∈ Finset.range N, Complex.exp (((2 * Real.pi * ((d * i : ℕ) : ℝ) / (N : ℝ) : ℝ) : ℂ) * I) = 0 := by
+  have hN : (N : ℂ) ≠ 0 := by
+    have : N ≠ 0 := by omega
+    exact_mod_cast this
+  have hterm : ∀ i : ℕ, Complex.exp (((2 * Real.pi * ((d * i : ℕ) : ℝ) / (N : ℝ) : ℝ) : ℂ) * I)
+      = Complex.exp (2 * Real.pi * I * d / N) ^ i := by
+    intro i
+    rw [← Complex.exp_nat_mul]
+    congr 1
+    push_cast
+    field_simp
+  simp only [hterm]
+  have hpow : Complex.exp (2 * Real.pi * I * d / N) ^ N = 1 := by
+    rw [← Complex.exp_nat_mul]
+    have : (N : ℂ) * (2 * Real.pi * I * d / N) = (d : ℂ) * (2 * Real.pi * I) := by field_simp
+    rw [this, Complex.exp_nat_mul_two_pi_mul_I]
+  have hne : Complex.exp (2 * Real.pi * I * d / N) ≠ 1 := by
+    intro h
+    obtain ⟨n, hn⟩ := Complex.exp_eq_one_iff.mp h
+    have h2 : (d : ℂ) = n * N := by
+      field_simp at hn
+      rw [hn]; ring
+    have h3 : (d : ℤ) = n * N := by exact_mod_cast h2
+    rcases le_or_gt n 0 with hn0 | hn0
+    · have : n * (N : ℤ) ≤ 0 := mul_nonpos_of_nonpos_of_nonneg hn0 (by positivity)
+      omega
+    · have : (N : ℤ) ≤ n * N := by nlinarith
+      omega
+  rw [geom_sum_eq hne, hpow]; simp
+
+theorem sum_cos_eq_zero (d N : ℕ) (hd : 0 < d) (hdN : d < N) :
+    ∑ i ∈ Finset.range N, Real.cos (2 * Real.pi * ((d * i : ℕ) : ℝ) / (N : ℝ)) = 0 := by
+  have := congrArg Complex.re (sum_exp_eq_zero d N hd hdN)
+  rw [Complex.re_sum] at this
+  simp only [Complex.exp_ofReal_mul_I_re, Complex.zero_re] at this
+  exact this
+
+theorem sum_sin_eq_zero (d N : ℕ) (hd : 0 < d) (hdN : d < N) :
+    ∑ i ∈ Finset.range N, Real.sin (2 * Real.pi * ((d * i : ℕ) : ℝ) / (N : ℝ)) = 0 := by
+  have := congrArg Complex.im (sum_exp_eq_zero d N hd hdN)
+  rw [Complex.im_sum] at this
+  simp only [Complex.exp_ofReal_mul_I_im, Complex.zero_im] at this
+  exact this
+
+section real
+open RealLike
+
+/-- the model's `2π·k·n/N` at `ℝ` -/
+theorem angle_real (k n N : Nat) : (angle k n N : ℝ) = 2 * Real.pi * ((k * n : ℕ) : ℝ) / (N : ℝ) := by
+  unfold angle
+  rw [ofNat'_real, ofNat'_real, two_lit]; rfl
+
+theorem sum_range_shift (f : ℕ → ℝ) (n len : ℕ) :
+    ∑ i ∈ Finset.range (len + 1), f (n + i) = f n + ∑ i ∈ Finset.range len, f (n + 1 + i) := by
+  rw [Finset.sum_range_succ']
+  simp only [Nat.add_zero]
+  rw [add_comm]
+  congr 1
+  apply Finset.sum_congr rfl
+  intro i _
+  congr 1; omega
+
+/-- subtracting a constant from the samples subtracts the constant times the sum of the cosines -/
+theorem dftReFrom_sub_const (m : ℝ) (k N : Nat) (l : List ℝ) : ∀ n,
+    dftReFrom k N n (l.map (· - m)) =
+      dftReFrom k N n l - m * ∑ i ∈ Finset.range l.length, Real.cos (2 * Real.pi * ((k * (n + i) : ℕ) : ℝ) / (N : ℝ)) := by
+  induction l with
+  | nil => intro n; simp [dftReFrom, zero_lit]
+  | cons v vs ih =>
+    intro n
+    simp only [List.map_cons, dftReFrom, ih, List.length_cons]
+    rw [sum_range_shift (fun j => Real.cos (2 * Real.pi * ((k * j : ℕ) : ℝ) / (N : ℝ))) n vs.length]
+    rw [angle_real]
+    show (v - m) * Real.cos _ + _ = v * Real.cos _ + _ - _
+    ring
+
+theorem dftImFrom_sub_const (m : ℝ) (k N : Nat) (l : List ℝ) : ∀ n,
+    dftImFrom k N n (l.map (· - m)) =
+      dftImFrom k N n l - m * ∑ i ∈ Finset.range l.length, Real.sin (2 * Real.pi * ((k * (n + i) : ℕ) : ℝ) / (N : ℝ)) := by
+  induction l with
+  | nil => intro n; simp [dftImFrom, zero_lit]
+  | cons v vs ih =>
+    intro n
+    simp only [List.map_cons, dftImFrom, ih, List.length_cons]
+    rw [sum_range_shift (fun j => Real.sin (2 * Real.pi * ((k * j : ℕ) : ℝ) / (N : ℝ))) n vs.length]
+    rw [angle_real]
+    show (v - m) * Real.sin _ + _ = v * Real.sin _ + _ - _
+    ring
+
+/-- **The DFT of a constant vanishes off the zero-frequency bin**: for `0 < k < N` bin `k` of a length-`N`
+    signal does not change when a constant is subtracted from the samples. -/
+theorem dftSq_sub_const (m : ℝ) (l : List ℝ) (k : Nat) (hk : 0 < k) (hkN : k < l.length) :
+    dftSq (l.map (· - m)) k = dftSq l k := by
+  unfold dftSq
+  rw [List.length_map, dftReFrom_sub_const, dftImFrom_sub_const]
+  simp only [Nat.zero_add]
+  rw [sum_cos_eq_zero k l.length hk hkN, sum_sin_eq_zero k l.length hk hkN]
+  simp
+
+end real
+/-! ## windows -/
+
+section real
+open RealLike
+
+theorem mem_chunks_length {β} (x : List β) (npw : Nat) (w : List β) (hw : w ∈ chunks x npw) :
+    w.length = npw := by
+  unfold chunks at hw
+  obtain ⟨c, hc, rfl⟩ := List.mem_map.mp hw
+  have hc : c < x.length / npw := List.mem_range.mp hc
+  have h1 : (c + 1) * npw ≤ x.length / npw * npw := Nat.mul_le_mul_right npw hc
+  have h2 : x.length / npw * npw ≤ x.length := Nat.div_mul_le_self _ _
+  have h3 : (c + 1) * npw = c * npw + npw := by ring
+  simp only [List.length_take, List.length_drop]
+  omega
+
+theorem getD_map_range {γ} (f : ℕ → γ) (n k : ℕ) (d : γ) (hk : k < n) :
+    ((List.range n).map f).getD k d = f k := by
+  simp [List.getD_eq_getElem?_getD, List.getElem?_map, List.getElem?_range hk]
+
+theorem psdPower_def (x : List ℝ) (fs : ℝ) (npw : Nat) :
+    psdPower x fs npw =
+      (meanRows ((chunks (demean x) npw).map rfftSq) (npw / 2 + 1)).map fun v => scaling fs npw * v := rfl
+
+/-- a list of length `npw > 0` is its own single window -/
+theorem chunks_self {β} (w : List β) (npw : Nat) (hn : 0 < npw) (hl : w.length = npw) :
+    chunks w npw = [w] := by
+  unfold chunks
+  rw [hl, Nat.div_self hn]
+  simp [← hl]
+
+/-- bin `k` (`1 ≤ k ≤ N/2`) of the un-windowed spectrum of a window `w` of `N` points:
+    the window's own mean does not matter -/
+theorem psdPower_single (fs : ℝ) (w : List ℝ) (npw k : Nat) (hl : w.length = npw)
+    (hk1 : 1 ≤ k) (hk2 : k ≤ npw / 2) :
+    (psdPower w fs npw).getD k 0 = scaling fs npw * dftSq w k := by
+  have hn : 0 < npw := by omega
+  have hkN : k < npw := by omega
+  have hdl : (demean w).length = npw := by simp [demean, hl]
+  rw [psdPower_def, chunks_self _ npw hn hdl]
+  simp only [List.map_cons, List.map_nil, meanRows, List.map_map, List.length_singleton]
+  rw [getD_map_range _ _ _ _ (by omega)]
+  simp only [Function.comp, rsum, ofNat'_real, zero_lit]
+  unfold rfftSq
+  rw [hdl, getD_map_range _ _ _ _ (by omega)]
+  unfold demean
+  rw [dftSq_sub_const _ _ _ (by omega) (by omega)]
+  simp
+
+end real
+
+section real
+open RealLike
+
+theorem dftImFrom_zero (N : Nat) (l : List ℝ) : ∀ n, dftImFrom 0 N n l = 0 := by
+  induction l with
+  | nil => intro n; simp [dftImFrom, zero_lit]
+  | cons v vs ih =>
+    intro n
+    simp only [dftImFrom, ih, angle_real]
+    show v * Real.sin _ + 0 = 0
+    simp
+
+theorem dftReFrom_zero (N : Nat) (l : List ℝ) : ∀ n, dftReFrom 0 N n l = rsum l := by
+  induction l with
+  | nil => intro n; simp [dftReFrom, rsum]
+  | cons v vs ih =>
+    intro n
+    simp only [dftReFrom, ih, angle_real, rsum]
+    show v * Real.cos _ + _ = _
+    simp
+
+theorem rsum_demean (x : List ℝ) : rsum (demean x) = 0 := by
+  unfold demean mean
+  cases x with
+  | nil => simp [rsum, zero_lit]
+  | cons v vs =>
+    have hne : (((v :: vs).length : ℕ) : ℝ) ≠ 0 := by simp; positivity
+    have h : ∀ (m : ℝ) (l : List ℝ), rsum (l.map fun w => w - m) = rsum l - l.length * m := by
+      intro m l
+      induction l with
+      | nil => simp [rsum, zero_lit]
+      | cons a as ih => simp only [List.map_cons, rsum, ih, List.length_cons]; push_cast; ring
+    rw [h, ofNat'_real]
+    field_simp
+    ring
+
+/-- the zero-frequency bin of a de-meaned signal is empty -/
+theorem dftSq_demean_zero (x : List ℝ) : dftSq (demean x) 0 = 0 := by
+  unfold dftSq
+  rw [dftReFrom_zero, dftImFrom_zero, rsum_demean]
+  simp [RealLike.sq]
 
 end real
 end Verif.C10
